@@ -67,14 +67,14 @@ type specError struct{ msg string }
 func sfail(format string, a ...interface{}) { panic(specError{fmt.Sprintf(format, a...)}) }
 
 type Env struct {
-	x      *Exec
-	cur    *State
-	old    *State
-	vars   map[string]SVal
-	pkg    *types.Package
-	fn     *ssa.Function // for locals by name (may be nil)
-	loop   *loopInfo     // for visited()
-	depth  int
+	x     *Exec
+	cur   *State
+	old   *State
+	vars  map[string]SVal
+	pkg   *types.Package
+	fn    *ssa.Function // for locals by name (may be nil)
+	loop  *loopInfo     // for visited()
+	depth int
 }
 
 func (e *Env) child() *Env {
